@@ -407,7 +407,32 @@ Proof.
   unfold inspect_jwt. apply jwt_reached_now.
   - exact Hname.
   - apply (no_magic_matches table tok magics_clear_now (jwt_token_head J tok HJ Hjwt)).
-  - unfold jwt_sniff. cbn. apply dotted_not_uuid. exact (jwt_has_dot J tok Hjwt).
-  - unfold jwt_sniff. cbn. exact Hjwt.
+  - unfold jwt_sniff, jwt_sniff_with. cbn. apply dotted_not_uuid. exact (jwt_has_dot J tok Hjwt).
+  - unfold jwt_sniff, jwt_sniff_with. cbn. exact Hjwt.
   - unfold jwt_parse. cbn. exact Ei.
+Qed.
+
+(* ---- the short cut the case runner takes changes nothing ---------------------------------- *)
+Lemma is_uuid_quick_eq : forall d, is_uuid_quick d = Model.Uuid.is_uuid d.
+Proof.
+  intros d. unfold is_uuid_quick. destruct (existsb (N.eqb dot) d) eqn:E; [|reflexivity].
+  apply existsb_exists in E. destruct E as (x & Hx & Ex). apply N.eqb_eq in Ex. subst x.
+  symmetry. apply dotted_not_uuid. exact Hx.
+Qed.
+
+Lemma candidates_ext : forall s1 s2 name data, (forall n, s1 n data = s2 n data) ->
+  forall t, candidates_in s1 t name data = candidates_in s2 t name data.
+Proof.
+  intros s1 s2 name data H. induction t as [|r t IH]; [reflexivity|].
+  cbn [candidates_in]. rewrite IH.
+  replace (row_matches s1 name data r) with (row_matches s2 name data r); [reflexivity|].
+  unfold row_matches, smells_like. destruct (r_sniffer r); [reflexivity|]. rewrite H. reflexivity.
+Qed.
+
+Theorem inspect_quick_eq : forall J os op name data,
+  inspect_jwt_quick J os op name data = inspect_jwt J os op name data.
+Proof.
+  intros. unfold inspect_jwt_quick, inspect_jwt, inspect, inspect_in.
+  rewrite (candidates_ext (jwt_sniff_with is_uuid_quick J os) (jwt_sniff J os) name data); [reflexivity|].
+  intros n. unfold jwt_sniff, jwt_sniff_with. rewrite is_uuid_quick_eq. reflexivity.
 Qed.
